@@ -16,9 +16,9 @@ def stageFinished : CLoc → Bool
   | .stage s => s.pc == .finished
   | _ => false
 
+/-- the stage threads are created by the user thread after `Chain::Start`; from then on it only joins them -/
 def mainNotFill : CLoc → Bool
-  | .main (.fill _) _ => false
-  | .main _ _ => true
+  | .main (.join _) _ => true
   | _ => false
 
 /-- user thread = `Chain::Start` (fill), `Chain::Wait` (join all, drain); thread `i+1` = stage `i`, a
